@@ -30,7 +30,8 @@ def write_case(d, ui_text, header_text, main_cpp, type_name="MyType"):
 def compile_case(d, sanitize=True, syntax_only=False, out="prog"):
     """-> (ok, stderr)"""
     md = cxxmodel.model_dir()
-    cmd = ["g++"] + CXXFLAGS + (SAN if sanitize and not syntax_only else []) + ["-I", md, "-I", d, os.path.join(d, "main.cpp")]
+    san = SAN if sanitize is True else (["-fsanitize=address", "-fno-omit-frame-pointer"] if sanitize == "address" else [])
+    cmd = ["g++"] + CXXFLAGS + (san if not syntax_only else []) + ["-I", md, "-I", d, os.path.join(d, "main.cpp")]
     cmd += ["-fsyntax-only"] if syntax_only else ["-o", os.path.join(d, out)]
     try:
         p = subprocess.run(cmd, capture_output=True, text=True, timeout=300)
